@@ -227,6 +227,64 @@ fn host_side_histories() -> Vec<Expect> {
     out
 }
 
+/// (c) A compiled program belongs to the module it was compiled for, whenever and how often it runs: an
+/// embedding compiles a program once under a module name of its own, keeps the function and executes it
+/// again - straight away, after a reset, after other programs ran (successfully or not), after an import.
+/// Every run defines and reads the globals of *its* module and never those of `main`.
+pub fn kept_program_histories() -> Vec<Expect> {
+    let h = "\u{0}host:";
+    let mut out = Vec::new();
+    let prog = "var a = 1;\nvar b = a + 1;\nfn f() { return b + 10; }\nvar c = f();\n";
+    let betweens: Vec<(&str, Vec<String>, Vec<Vec<&str>>, Vec<&str>, &str)> = vec![
+        ("nothing", vec![], vec![], vec![], "<no such global>"),
+        ("a reset", vec!["\u{0}reset".to_string()], vec![vec![]], vec!["ok"], "<no such global>"),
+        ("two resets", vec!["\u{0}reset".to_string(), "\u{0}reset".to_string()], vec![vec![], vec![]], vec!["ok", "ok"], "<no such global>"),
+        ("a main program with globals of the same names", vec!["var a = \"main's a\";\nvar c = \"main's c\";\nprint(a);\n".to_string()], vec![vec!["main's a"]], vec!["ok"], "main's a"),
+        ("a reset and a main program with globals of the same names", vec!["\u{0}reset".to_string(), "var a = \"main's a\";\nprint(a);\n".to_string()], vec![vec![], vec!["main's a"]], vec!["ok", "ok"], "main's a"),
+        ("a main program that fails", vec!["fn g() { throw \"deep\"; }\ng();\n".to_string()], vec![vec![]], vec!["Unhandled"], "<no such global>"),
+        ("an import", vec!["import \"zz_lib\";\nprint(zz_lib.answer);\n".to_string()], vec![vec!["load zz_lib", "42"]], vec!["ok"], "<no such global>"),
+        ("a reset and an import", vec!["\u{0}reset".to_string(), "import \"zz_lib\";\nprint(zz_lib.answer);\n".to_string()], vec![vec![], vec!["load zz_lib", "42"]], vec!["ok", "ok"], "<no such global>"),
+        ("a program under another module name", vec![format!("{}run_in:other:var a = \"other's a\";", h)], vec![vec![]], vec!["ok"], "<no such global>"),
+    ];
+    for (what, between, b_out, b_end, main_a) in betweens {
+        for module in ["job", "main"] {
+            let mut snippets = vec![format!("{}compile_keep_in:{}:{}", h, module, prog), "\u{0}run_kept:0".to_string(), format!("{}show_global:{}:c", h, module)];
+            let mut outs: Vec<Vec<&str>> = vec![vec![], vec![], vec!["12"]];
+            let mut ends: Vec<&str> = vec!["ok", "ok", "ok"];
+            snippets.extend(between.iter().cloned());
+            outs.extend(b_out.iter().cloned());
+            ends.extend(b_end.iter().cloned());
+            snippets.push("\u{0}run_kept:0".to_string());
+            outs.push(vec![]);
+            ends.push("ok");
+            for (name, want) in [("c", "12"), ("b", "2"), ("a", "1")] {
+                snippets.push(format!("{}show_global:{}:{}", h, module, name));
+                outs.push(vec![want]);
+                ends.push("ok");
+            }
+            if module != "main" {
+                snippets.push(format!("{}show_global:main:a", h));
+                outs.push(vec![main_a]);
+                ends.push("ok");
+                snippets.push(format!("{}show_global:main:b", h));
+                outs.push(vec!["<no such global>"]);
+                ends.push("ok");
+            }
+            let mut modules = BTreeMap::new();
+            modules.insert("zz_lib".to_string(), "print(\"load zz_lib\");\nvar answer = 42;\n".to_string());
+            out.push(Expect {
+                family: "kept_program_runs_in_its_module",
+                request: Request { op: "run".into(), snippets, modules, fuel: Some(1_000_000), ..Default::default() },
+                out: outs.into_iter().map(|v| v.into_iter().map(|x| x.to_string()).collect()).collect(),
+                end: ends.into_iter().map(|x| x.to_string()).collect(),
+                describe: json!({"module": module, "between_the_two_runs": what}),
+                nontrivial: true,
+            });
+        }
+    }
+    out
+}
+
 /// the model: what a snippet prints, how it ends, and the state afterwards
 fn step(s: &St, name: &str) -> (St, Vec<String>, String) {
     let mut n = s.clone();
@@ -548,7 +606,8 @@ pub fn run(ctx: &Ctx) -> Report {
         report.violations.extend(st.violations);
     }
     {
-        let cases = host_side_histories();
+        let mut cases = host_side_histories();
+        cases.extend(kept_program_histories());
         let n = cases.len();
         let st = expect::run_expect(ctx, &ctx.runner_checked, cases.into_iter(), &|_e, _r| None, &|_e, _p| None);
         report.cov("host_side_histories", json!(n));
